@@ -124,6 +124,8 @@ def build(cfg, cur, other, bg_getter):
         u0 = Stream()
         ups = [b0, u0, u0.union(b0)]       # the undeclared stream comes first
     up = ups[-1] if ups else None
+    if bg_getter is not None:
+        bg_getter.extend((n_, n_.loop, n_.asynchronous) for n_ in ups)       # what the pipeline looked like before the new node
     if t == 'map':
         n = up.map(lambda x: x)
     elif t == 'map_async':
@@ -229,11 +231,18 @@ def check_config(cfg, counters, viols, case_of):
             exp = expectation(cfg, cur, other)
             th0 = set(threading.enumerate())
             n_loops0 = len(score._io_loops)
+            before = []
             try:
-                nodes = build(cfg, cur, other, None)
+                nodes = build(cfg, cur, other, before)
                 raised = None
             except ValueError as ex:
                 nodes, raised = None, ex
+                changed = [(type(n_).__name__, _lk(l_, cur, other, score), a_, _lk(n_.loop, cur, other, score), n_.asynchronous)
+                           for n_, l_, a_ in before if n_.loop is not l_ or n_.asynchronous is not a_]
+                counters['refused_constructions_checked_for_side_effects'] = counters.get('refused_constructions_checked_for_side_effects', 0) + 1
+                if changed:
+                    add('C19:refused-construction-changed-the-pipeline@%s' % _klass(cfg), '%r raised %r, but nodes of the pipeline it would have '
+                        'extended were changed (class, loop before, mode before, loop after, mode after): %s' % (cfg, ex, changed[:4]))
             except Exception as ex:
                 add('C19:construction-raised:%s@%s' % (type(ex).__name__, cfg[1]), '%r: %r' % (cfg, ex))
                 return
